@@ -100,7 +100,10 @@ def run(tier, opts):
         summ = [r for r in recs if r.get("summary")][0]
         for r in recs:
             if r.get("kind") == "subject-not-accepted":
-                raise vf.ToolError(f"[{b}] a proof meant to be accepted is rejected: {r['id']}: {r['detail']}")
+                # an honest proof (reference prover of the harness, or a shipped Stone proof of this build) is rejected: the
+                # premise "accepted proof" cannot be established because the verifier lost completeness
+                kindp = "toy" if r["id"].startswith("toy") else "shipped"
+                ck.violation(f"honest-proof-rejected:{b}:{kindp}", f"[{b}] an honest proof is rejected by the verifier: {r['id'][:80]}: {r['detail'][:160]}", r)
             if r.get("kind") == "class":
                 mc = model_class(r["class"])
                 if mc is None:
